@@ -442,3 +442,60 @@ Proof.
       + apply (IH tx2 x2 Hx2). }
   lia.
 Qed.
+
+(* ---------- a whole write(): counters untouched by the sleep; anchored bound ---------- *)
+(* the state write leaves behind is the one rateLimit computed, whatever the delay *)
+Lemma write_counters st a a' c :
+  fst (write_delay false st a a' c) = fst (rate_limit st a a' c)
+  /\ fst (write_delay true st a a' c) = st.
+Proof. split; reflexivity. Qed.
+
+(* from a known state: its penalty plus everything charged since is covered by the time
+   since its lastsent plus 10 s *)
+Lemma anchored_bound st0 l e :
+  fs_bad st0 <= threshold -> honoured st0 (fs_last st0) (l ++ [e]) ->
+  fs_bad st0 + charge (l ++ [e]) <= (s_w e - fs_last st0) + threshold.
+Proof.
+  intros Hb Hh.
+  pose proof (final_phi _ _ _ Hh) as Hp.
+  pose proof (final_inv _ _ _ (inv_start _ Hb) Hh) as [_ Hi].
+  rewrite final_snoc in Hi. unfold phi in Hp. lia.
+Qed.
+
+(* every honoured two-line history from (bad, lastsent = 0), observed as harness/c10.go does
+   (arrival stamps m late never early, the harness's clock reading r1 between the first
+   write and the second submission), passes the hold oracle: noise cannot alarm *)
+Lemma hold_oracle_holds bad e1 e2 m1 r1 m2 :
+  fs_bad {| fs_bad := bad; fs_last := 0 |} <= threshold ->
+  honoured {| fs_bad := bad; fs_last := 0 |} 0 [e1; e2] ->
+  s_w e1 <= m1 -> s_w e1 <= r1 <= s_a e2 -> s_w e2 <= m2 ->
+  let st1 := fst (step {| fs_bad := bad; fs_last := 0 |} e1) in
+  let st2 := fst (step st1 e2) in
+  C10_hold_ok (s_chars e1) bad (s_chars e2) (s_a2 e1) (fs_bad st1) m1 r1 (fs_bad st2) (s_a2 e2) m2 = true.
+Proof.
+  intros Hb Hh Hm1 Hr1 Hm2 st1 st2.
+  pose proof (anchored_bound {| fs_bad := bad; fs_last := 0 |} [] e1 Hb) as A1.
+  pose proof (anchored_bound {| fs_bad := bad; fs_last := 0 |} [e1] e2 Hb Hh) as A2.
+  cbn [app charge fs_bad fs_last] in A1, A2.
+  destruct Hh as (H1 & H2 & _). specialize (A1 (conj H1 I)).
+  destruct H1 as (Hc1 & Hp1 & Ha1 & Hw1). destruct H2 as (Hc2 & Hp2 & Ha2 & Hw2).
+  fold st1 in Hw2. unfold step in Hw1, Hw2.
+  rewrite rate_limit_ret in Hw1, Hw2. fold (step {| fs_bad := bad; fs_last := 0 |} e1) in Hw1.
+  fold st1 in Hw1. fold (step st1 e2) in Hw2. fold st2 in Hw2.
+  assert (E1 : fs_bad st1 = Z.max 0 (bad + linetime (s_chars e1) - (s_a e1 - 0))).
+  { unfold st1, step. rewrite rate_limit_bad. reflexivity. }
+  assert (L1 : fs_last st1 = s_a2 e1) by (unfold st1, step; apply rate_limit_last).
+  assert (E2 : fs_bad st2 = Z.max 0 (fs_bad st1 + linetime (s_chars e2) - (s_a e2 - s_a2 e1))).
+  { unfold st2, step. rewrite rate_limit_bad, L1. reflexivity. }
+  pose proof (linetime_pos _ Hc1). pose proof (linetime_pos _ Hc2).
+  unfold C10_hold_ok, C10_ok. cbv zeta.
+  rewrite !Z.gtb_ltb in *.
+  generalize dependent (fs_bad st1). generalize dependent (fs_bad st2).
+  intros b2 Hw2 b1 Hw1 E1 E2. clear st1 st2 L1.
+  generalize dependent (linetime (s_chars e1)). generalize dependent (linetime (s_chars e2)).
+  intros l2 A2 Hw2 Hl2 l1 A1 Hw1 E1 E2 Hl1.
+  unfold threshold in *.
+  rewrite !andb_true_iff, !Z.leb_le, !Z.eqb_eq.
+  destruct (Z.ltb_spec 10000000000 b1); destruct (Z.ltb_spec 10000000000 b2);
+    destruct (Z.ltb_spec 0 b1); destruct (Z.ltb_spec 0 b2); repeat split; lia.
+Qed.
